@@ -605,6 +605,7 @@ def _parse_transf_v33(raw, system, max_bus):
                          'bus1': data[0][i],
                          'bus2': new_bus,
                          'u': data[0][11],
+                         'Sn': system.config.mva,  # star impedances are in pu on the system base
                          'b': data[0][8],
                          'r': r[i],
                          'x': x[i],
